@@ -191,6 +191,69 @@ def doProbe (l : Line) : Option String := do
   let js := xs.map (nearestIndex c n)
   some s!"ok i={showNatList is} nd={showRatList nds} j={showNatList js}"
 
+/-- Axis spec `u:lo:hi:n` (an axis of `uniform_discr(lo, hi, n)`: the model computes the nodes)
+or `c:x0,x1,…` (explicit coordinate vector of a non-uniform partition). -/
+def parseAxisSpec (s : String) (sch : Scheme) : Option (Axis Rat) :=
+  match s.splitOn ":" with
+  | ["u", lo, hi, n] => do
+      let lo ← parseRat lo
+      let hi ← parseRat hi
+      let n ← n.toNat?
+      if n = 0 then none else some (uniformAxis lo hi n sch)
+  | ["c", cs] => do
+      let cv ← parseRatList cs
+      if cv.isEmpty then none
+      let a := cv.toArray
+      some { n := cv.length, c := fun i => a.getD i 0, scheme := sch }
+  | _ => none
+
+def parseAxisSpecs (s : String) (schemes : List Scheme) : Option (List (Axis Rat)) :=
+  let toks := s.splitOn "|"
+  if toks.length ≠ schemes.length then none
+  else (List.zip toks schemes).mapM fun (t, sc) => parseAxisSpec t sc
+
+/-- `grid lo=… hi=… n=…` answers `ok c=…`: the nodes of `uniform_discr(lo, hi, n)`. -/
+def doGrid (l : Line) : Option String := do
+  let lo ← l.rat? "lo"
+  let hi ← l.rat? "hi"
+  let n ← l.nat? "n"
+  if n = 0 then none
+  some s!"ok c={showRatList (uniformAxis lo hi n .linear).nodes}"
+
+/-- The value array of an operator case: `v` flat in C order over the DOMAIN axes. -/
+def opValues (l : Line) (axes : List (Axis Rat)) : Option (List Nat → CRat) := do
+  let dims := axes.map (·.n)
+  let vals := (← l.crats? "v").toArray
+  if vals.size ≠ dims.foldl (· * ·) 1 then none
+  let bad : CRat := ⟨123456789, 987654321⟩
+  some fun idx =>
+    match flatIndex dims idx with
+    | some k => vals.getD k bad
+    | none => bad
+
+/-- `resample sch=l,n dom=<spec>|<spec> ran=<spec>|<spec> v=…` answers `ok r=…`:
+`Resampling(domain, range, interp)(x)` flat in C order, the grids computed by the model. -/
+def doResample (l : Line) : Option String := do
+  let schemes ← (← l.get? "sch") |> parseList parseScheme
+  let dom ← parseAxisSpecs (← l.get? "dom") schemes
+  let ran ← parseAxisSpecs (← l.get? "ran") schemes
+  if dom.isEmpty || dom.any (·.n < 2) then none
+  let v ← opValues l dom
+  some s!"ok r={showCList (resampling dom ran v)}"
+
+/-- `deform sch=l,n dom=<spec>|<spec> v=… disp=row;row` answers `ok r=…`:
+`linear_deform(template, displacement, interp)` flat in C order (`disp`: one row per component,
+each flat in C order), grid and displaced points computed by the model. -/
+def doDeform (l : Line) : Option String := do
+  let schemes ← (← l.get? "sch") |> parseList parseScheme
+  let dom ← parseAxisSpecs (← l.get? "dom") schemes
+  if dom.isEmpty || dom.any (·.n < 2) then none
+  let v ← opValues l dom
+  let disp ← l.mat? "disp"
+  let size := (dom.map (·.n)).foldl (· * ·) 1
+  if disp.length ≠ dom.length || disp.any (·.length ≠ size) then none
+  some s!"ok r={showCList (linearDeform dom v disp)}"
+
 def handle (l : Line) : Option String :=
   match l.op with
   | "interp" => doInterp l
@@ -199,6 +262,9 @@ def handle (l : Line) : Option String :=
   | "classify" => doClassify l
   | "sample" => doSample l
   | "probe" => doProbe l
+  | "grid" => doGrid l
+  | "resample" => doResample l
+  | "deform" => doDeform l
   | _ => none
 
 def main : IO Unit := driverLoop handle
